@@ -79,6 +79,9 @@ class C01(Prop):
                      'cc': rng.choice(['', 'max-age=100', 'no-store', 'private']), 'origin10': rng.random() < 0.1,
                      'owin': rng.choice([4096, 65536, 65536, 1 << 20])}
                 hc.bound_transfer(t, plan['knobs'])
+                # some transactions go to a two-address host whose first contacted address answers a complete 502/504 (squid then re-forwards to the other)
+                if rng.random() < 0.2 and t['method'] == 'GET':
+                    t['retry_status'] = rng.choice([502, 504, 502, 503])
                 # an HTTP/1.0 client can only detect truncation of a length-delimited message (the property speaks of HTTP/1.1
                 # framing), so faults for those clients are restricted to Content-Length framed origin responses
                 if faulty and rng.random() < 0.5 and t['status'] != 204 and t['method'] == 'GET' and (not c['http10'] or t['framing'] == 'cl'):
@@ -99,31 +102,44 @@ class C01(Prop):
         hc.apply_knobs(scn, plan['knobs'])
         scn.knob('peer.expect_timeout_us', 200000000)
         srv = scn.server('o1', '10.0.0.1', 80)
+        multi = [scn.server('m1', '10.0.0.11', 80), scn.server('m2', '10.0.0.12', 80)]
+        d = scn.dns(); d.add('host multi.test 1 addrs 10.0.0.11,10.0.0.12'); d.add('host multi.test 28 addrs -')
+        if any(t.get('retry_status') == 503 for c in plan['clients'] for t in c['txns']):
+            scn.conf = scn.conf.replace('http_access allow all', 'retry_on_error on\nhttp_access allow all')
         expect = {}
         for c in plan['clients']:
             for t in c['txns']:
                 rng = random.Random(t['id'])
                 head, enc, body = build_origin_wire(t, rng)
                 wire = Payload(head, enc)
-                r = srv.sub('rule t%d has %s' % (t['id'], tok(b' /o%d ' % t['id'])))
-                r.add('expect body')
+                targets = [srv]
+                if t.get('retry_status'):
+                    targets = multi
+                    ebody = Payload(G('e%07d' % (t['id'] % 10000000), 0, 300))
+                    ewire = Payload(hc.response_head(t['retry_status'], [(b'Content-Length', b'300'), (b'X-Sim-Ver', b'e%d' % t['id'])]), ebody)
+                    for m in multi:
+                        r0 = m.sub('rule e%d when tried%d= has %s' % (t['id'], t['id'], tok(b' /o%d ' % t['id'])))
+                        r0.add('expect body'); r0.add('set tried%d 1' % t['id']); r0.add('send %s seg whole' % ewire.token())
                 segopt = ' seg %s' % t['seg'] + (' pace 0 %d' % t['pace'] if t['pace'] else '')
                 f = t.get('fault')
-                info = {'body': body, 'status': t['status'], 'method': t['method'], 'fault': None, 'framing': t['framing']}
-                if f:
-                    # cut strictly inside the encoded body (never at its very end, never before the head ends unless body empty)
-                    lo, hi = len(head), len(wire) - 1
-                    if hi <= lo:
-                        cut = max(1, len(head) // 2)
+                info = {'body': body, 'status': t['status'], 'method': t['method'], 'fault': None, 'framing': t['framing'], 'retry_status': t.get('retry_status')}
+                for srv_t in targets:
+                    r = srv_t.sub('rule t%d has %s' % (t['id'], tok(b' /o%d ' % t['id'])))
+                    r.add('expect body')
+                    if f:
+                        # cut strictly inside the encoded body (never at its very end, never before the head ends unless body empty)
+                        lo, hi = len(head), len(wire) - 1
+                        if hi <= lo:
+                            cut = max(1, len(head) // 2)
+                        else:
+                            cut = lo + int(f['frac'] * (hi - lo))
+                        r.add('send %s%s' % (wire.slice(0, cut).token(), segopt))
+                        r.add({'fin': 'close', 'rst': 'reset', 'stall': 'stall'}[f['kind']])
+                        info['fault'] = f['kind']; info['cut'] = cut
                     else:
-                        cut = lo + int(f['frac'] * (hi - lo))
-                    r.add('send %s%s' % (wire.slice(0, cut).token(), segopt))
-                    r.add({'fin': 'close', 'rst': 'reset', 'stall': 'stall'}[f['kind']])
-                    info['fault'] = f['kind']; info['cut'] = cut
-                else:
-                    r.add('send %s%s' % (wire.token(), segopt))
-                    if t['framing'] == 'close' and t['status'] != 204 and t['method'] != 'HEAD':
-                        r.add('close')
+                        r.add('send %s%s' % (wire.token(), segopt))
+                        if t['framing'] == 'close' and t['status'] != 204 and t['method'] != 'HEAD':
+                            r.add('close')
                 expect[t['id']] = info
         for c in plan['clients']:
             cl = scn.client(c['name'], start=c['start'], window=c['window'])
@@ -137,10 +153,11 @@ class C01(Prop):
                         cl.add('readpace %d %d' % tuple(c['readpace']))
                     need_connect = False
                 ver = b'HTTP/1.0' if c['http10'] else b'HTTP/1.1'
-                hdrs = [(b'Host', b'10.0.0.1'), (b'X-Sim-Req', str(t['id']).encode())]
+                host = b'multi.test' if t.get('retry_status') else b'10.0.0.1'
+                hdrs = [(b'Host', host), (b'X-Sim-Req', str(t['id']).encode())]
                 if c['http10']:
                     hdrs.append((b'Connection', b'keep-alive'))
-                req = hc.request_head(t['method'].encode(), b'http://10.0.0.1/o%d' % t['id'], hdrs, ver)
+                req = hc.request_head(t['method'].encode(), b'http://' + host + b'/o%d' % t['id'], hdrs, ver)
                 cl.add('send %s seg whole' % tok(req))
                 cl.add('expect %s timeout 200000000' % ('response-nobody' if t['method'] == 'HEAD' else 'response'))
                 # a connection that may have been closed by squid cannot be reused by the script
@@ -179,6 +196,13 @@ class C01(Prop):
                         V.append(Violation('C01:missing-response', 'request %d on conn %d got no response (fault-free run)' % (rid, cv.conn.id)))
                     continue
                 m = cv.finals[k]
+                if e.get('retry_status') and m.status == e['retry_status'] and (m.get(b'x-sim-ver') or b'').startswith(b'e'):
+                    # squid chose to relay the first destination's (complete) error response: judge it as the origin response it is
+                    ebody = simlib.gen_bytes('e%07d' % (rid % 10000000), 0, 300)
+                    if m.complete and m.body != ebody:
+                        V.append(Violation('C01:body-altered', 'request %d: relayed %d response body differs: %s' % (rid, m.status, hc.diff_desc(m.body, ebody))))
+                    stats['judged_complete'] += 1
+                    continue
                 if hc.is_squid_error(m):
                     stats['judged_error'] += 1
                     if not e['fault']:
